@@ -20,8 +20,11 @@ def XPathOf(e: ElemK) -> str:
     uninterpreted()
 
 
+Ctx = Opaque("Ctx")
+
+
 @spec
-def Subst(survey: SurveyS, text: BindVal, ctx: ElemK) -> str:
+def Subst(survey: Ctx, text: BindVal, ctx: Ctx) -> str:
     """The cell text with every ${name} replaced by the XPath of the named node as seen from ctx (insert_xpaths; C03)."""
     uninterpreted()
 
@@ -43,15 +46,15 @@ def HasRef(s: str) -> bool:
 
 
 @spec
-def BindAttr(survey: SurveyS, e: ElemK, k: str, v: BindVal) -> str:
+def BindAttr(survey: Ctx, e: ElemK, k: str, v: BindVal) -> str:
     """The value the bind attribute k must carry for the cell value v of element e (C05, C07)."""
     if isinstance(v, str):
         if (k == "jr:constraintMsg" or k == "jr:requiredMsg") and HasRef(v):
-            return Subst(survey, "jr:itext('" + XPathOf(e) + ":" + k + "')", e)
-        return Subst(survey, TruthNorm(k, v), e)
+            return Subst(survey, "jr:itext('" + XPathOf(e) + ":" + k + "')", ctx_of(e))
+        return Subst(survey, TruthNorm(k, v), ctx_of(e))
     if k == "jr:constraintMsg" or k == "jr:requiredMsg" or k == "jr:noAppErrorString":
-        return Subst(survey, "jr:itext('" + XPathOf(e) + ":" + k + "')", e)
-    return Subst(survey, v, e)
+        return Subst(survey, "jr:itext('" + XPathOf(e) + ":" + k + "')", ctx_of(e))
+    return Subst(survey, v, ctx_of(e))
 
 
 @contract("SurveyElement.get_xpath")
@@ -61,9 +64,9 @@ def _(self: ElemK) -> str:
 
 
 @contract("Survey.insert_xpaths", module="pyxform.survey")
-def _(self: SurveyS, text: BindVal, context: ElemK, use_current: bool = False, reference_parent: bool = False) -> str:
-    trusted("reference substitution (C03 kernels / bounded family)")
-    ensures(result == Subst(self, text, context))
+def _(self: SV, text: BindVal, context: CV, use_current: bool = False, reference_parent: bool = False) -> str:
+    trusted("reference substitution (C03 kernels / bounded family); survey and context may be any record/reference view")
+    ensures(result == Subst(ctx_of(self), text, ctx_of(context)))
     may_raise(PyXFormError, when=True)
 
 
@@ -103,7 +106,7 @@ def _(self: ElemK, survey: SurveyS) -> List[XNode]:
     ensures(implies(self.bind is not None and not bool(self.flat), forall(0, len(keys(B)), lambda j:
             (keys(B)[j] == "calculate" and skip_calc)
             or (keys(B)[j] in result[0].attrs and implies(keys(B)[j] != "nodeset",
-                result[0].attrs[keys(B)[j]] == BindAttr(survey, self, keys(B)[j], B[keys(B)[j]]))))))
+                result[0].attrs[keys(B)[j]] == BindAttr(ctx_of(survey), self, keys(B)[j], B[keys(B)[j]]))))))
     # ... and the bind carries nothing else
     ensures(implies(self.bind is not None and not bool(self.flat), forall_str(lambda a: implies(
             a in result[0].attrs, a == "nodeset" or (a in B and not (a == "calculate" and skip_calc))))))
@@ -114,7 +117,7 @@ def _(self: ElemK, survey: SurveyS) -> List[XNode]:
         invariant(forall(0, j, lambda q: (keys(B)[q] == "calculate" and skip_calc) or keys(B)[q] in bind_dict))
         # ... and, keyed by attribute name, every entry is the prescribed value of that row's own cell
         invariant(forall_str(lambda a: implies(a in bind_dict, a in B and not (a == "calculate" and skip_calc)
-                                               and bind_dict[a] == BindAttr(survey, self, a, B[a]))))
+                                               and bind_dict[a] == BindAttr(ctx_of(survey), self, a, B[a]))))
 
 
 # ---------------------------------------------------------------- dynamic defaults (C10)
@@ -139,7 +142,7 @@ def _(self: ElemK, survey: SurveyS, in_repeat: bool = False) -> Opt[XNode]:
     ensures(implies(dyn, some(result).tagName == "setvalue" and len(some(result).kids) == 0
                     and len(keys(some(result).attrs)) == 3
                     and keys(some(result).attrs)[0] == "ref" and some(result).attrs["ref"] == XPathOf(self)
-                    and keys(some(result).attrs)[1] == "value" and some(result).attrs["value"] == Subst(survey, some(self.default), self)
+                    and keys(some(result).attrs)[1] == "value" and some(result).attrs["value"] == Subst(ctx_of(survey), some(self.default), ctx_of(self))
                     and keys(some(result).attrs)[2] == "event"))
     # fired on first load; inside a repeat also for every new repeat instance
     ensures(implies(dyn and not in_repeat, some(result).attrs["event"] == "odk-instance-first-load"))
